@@ -215,18 +215,21 @@ func (s *server) HandleRemoteQueries(r *rpc.RegisterQueryHandler, stream grpc.Se
 				break
 			}
 
+			if m.Error != "" {
+				finalErr = errors.New(m.Error)
+			}
+			// A query that fails before the fields are known sends only the final
+			// message, so look for the end on the first message too
+			if m.EndOfResults {
+				break
+			}
+
 			if first {
 				// First message contains only fields information
 				onFields(m.Fields)
 				first = false
 			} else {
-				if m.Error != "" {
-					finalErr = errors.New(m.Error)
-				}
 				// Subsequent messages contain data
-				if m.EndOfResults {
-					break
-				}
 				var more bool
 				var err error
 				if unflat {
